@@ -67,7 +67,8 @@ type Run struct {
 	violKeys     map[string]int
 	inconclusive []string
 
-	replay *Replay
+	replay  *Replay
+	caseIdx map[int64]int
 }
 
 // Replay describes a replay request / a stored witness.
@@ -76,6 +77,7 @@ type Replay struct {
 	Tier     string          `json:"tier"`
 	Seed     int64           `json:"seed"`
 	CaseSeed int64           `json:"case_seed"`
+	CaseIdx  int             `json:"case_index"`
 	Phase    string          `json:"phase,omitempty"`
 	Key      string          `json:"key"`
 	What     string          `json:"what"`
@@ -96,6 +98,7 @@ func New(prop, level string) *Run {
 		extra:        map[string]any{},
 		knownPrinted: map[string]int{},
 		violKeys:     map[string]int{},
+		caseIdx:      map[int64]int{},
 	}
 	if t := os.Getenv("VERIF_TIER"); t == "quick" || t == "thorough" {
 		r.Tier = t
@@ -286,7 +289,11 @@ func (r *Run) Violation(key, what, phase string, caseSeed int64, detail any) {
 			raw, _ = json.Marshal(fmt.Sprint(detail))
 		}
 	}
-	rp := Replay{Property: r.Prop, Tier: r.Tier, Seed: r.Seed, CaseSeed: caseSeed, Phase: phase, Key: key, What: what, Detail: raw}
+	idx, ok := r.caseIdx[caseSeed]
+	if !ok {
+		idx = -1
+	}
+	rp := Replay{Property: r.Prop, Tier: r.Tier, Seed: r.Seed, CaseSeed: caseSeed, CaseIdx: idx, Phase: phase, Key: key, What: what, Detail: raw}
 	b, _ := json.MarshalIndent(rp, "", " ")
 	h := sha256.Sum256(b)
 	dir := filepath.Join(Root(), "replays")
@@ -353,7 +360,7 @@ func firstRepoFrame(st string) string {
 func (r *Run) Parallel(phase string, n, workers int, f func(i int, caseSeed int64)) {
 	if rp := r.replay; rp != nil {
 		if rp.Phase == phase {
-			r.Guard(phase, rp.CaseSeed, func() { f(-1, rp.CaseSeed) })
+			r.Guard(phase, rp.CaseSeed, func() { f(rp.CaseIdx, rp.CaseSeed) })
 		}
 		return
 	}
@@ -371,7 +378,10 @@ func (r *Run) Parallel(phase string, n, workers int, f func(i int, caseSeed int6
 			cur := filepath.Join(dir, fmt.Sprintf("current-%s-%d", phase, w))
 			for i := range ch {
 				cs := r.CaseSeed(phase, i)
-				os.WriteFile(cur, []byte(fmt.Sprintf(`{"property":%q,"tier":%q,"seed":%d,"case_seed":%d,"phase":%q,"key":"process-death","what":"process died while running this case"}`, r.Prop, r.Tier, r.Seed, cs, phase)), 0o644)
+				r.mu.Lock()
+				r.caseIdx[cs] = i
+				r.mu.Unlock()
+				os.WriteFile(cur, []byte(fmt.Sprintf(`{"property":%q,"tier":%q,"seed":%d,"case_seed":%d,"case_index":%d,"phase":%q,"key":"process-death","what":"process died while running this case"}`, r.Prop, r.Tier, r.Seed, cs, i, phase)), 0o644)
 				r.Guard(phase, cs, func() { f(i, cs) })
 			}
 			os.Remove(cur)
